@@ -406,6 +406,13 @@ func init() {
 		n := args[0].(*Term)
 		return ret(f, retTo, ex.makeSlice(st, types.Typ[types.Uint8], n, n, instr))
 	}
+	intrinsics["runtime/debug.Stack"] = func(ex *Exec, st *State, f *Frame, fn FuncV, args []Value, retTo ssa.Value, instr ssa.Instruction) bool {
+		// the text of a Go stack trace is not modelled
+		return ret(f, retTo, SliceV{Off: ex.c64(0), Len: ex.c64(0), Cap: ex.c64(0)})
+	}
+	intrinsics["runtime/debug.PrintStack"] = func(ex *Exec, st *State, f *Frame, fn FuncV, args []Value, retTo ssa.Value, instr ssa.Instruction) bool {
+		return ret(f, retTo, nil)
+	}
 	intrinsics["internal/abi.NoEscape"] = func(ex *Exec, st *State, f *Frame, fn FuncV, args []Value, retTo ssa.Value, instr ssa.Instruction) bool {
 		return ret(f, retTo, args[0])
 	}
